@@ -489,6 +489,9 @@ def _eval_guard(test, value):
         return bool(value)
     if isinstance(test, ast.UnaryOp) and isinstance(test.op, ast.Not):
         return not _eval_guard(test.operand, value)
+    if isinstance(test, ast.Compare) and len(test.ops) == 1 and isinstance(test.left, ast.Constant) \
+            and self_attr(test.comparators[0]) == "use_multiprocessing" and isinstance(test.ops[0], (ast.Eq, ast.NotEq, ast.Is, ast.IsNot)):
+        test = ast.Compare(left=test.comparators[0], ops=test.ops, comparators=[test.left])
     if isinstance(test, ast.Compare) and len(test.ops) == 1 and self_attr(test.left) == "use_multiprocessing" \
             and isinstance(test.comparators[0], ast.Constant):
         c = test.comparators[0].value
@@ -510,6 +513,9 @@ def _eval_guard(test, value):
 def _eval_flag(expr, envval):
     """value of the expression assigned to self.use_multiprocessing for a given environment
     value (None = unset)"""
+    if isinstance(expr, ast.Compare) and len(expr.ops) == 1 and isinstance(expr.left, ast.Constant) \
+            and not isinstance(expr.comparators[0], ast.Constant) and isinstance(expr.ops[0], (ast.Eq, ast.NotEq)):
+        expr = ast.Compare(left=expr.comparators[0], ops=expr.ops, comparators=[expr.left])
     if isinstance(expr, ast.Compare) and len(expr.ops) == 1 and isinstance(expr.comparators[0], ast.Constant):
         l = _eval_flag(expr.left, envval)
         c = expr.comparators[0].value
